@@ -149,9 +149,26 @@ void slu_v_hold(int on)
     t_hold = on;
     if (!on && t_npend) { if (t_out) fwrite(t_pend, 1, t_npend, t_out); t_npend = 0; }
 }
+#define MAX_PHASES 48
+static __thread char t_phase[MAX_PHASES][16]; static __thread int t_nphase;
+void slu_v_phases_reset(void) { t_nphase = 0; }
+void slu_v_phases_json(FILE *f)
+{
+    fputs(",\"phases\":[", f);
+    for (int i = 0; i < t_nphase && i < MAX_PHASES; i++) fprintf(f, "%s\"%s\"", i ? "," : "", t_phase[i]);
+    if (t_nphase > MAX_PHASES) fputs(",\"Overflow\"", f);
+    fputc(']', f);
+}
 void slu_vhook(const char *event, const char *fmt, ...)
 {
     if (slu_v_yield && event[0] != 'A') slu_v_yield(event + 2);
+    if (event[0] == 'P') {
+        /* phase events of the drivers (spec/SluDriver.tla): collected per call, the harness reports them with the return event */
+        char body[256]; va_list ap; va_start(ap, fmt); vsnprintf(body, sizeof body, fmt ? fmt : "", ap); va_end(ap);
+        const char *q = strstr(body, "\"name\":\"");
+        if (q && t_nphase < MAX_PHASES) { q += 8; size_t k = 0; while (q[k] && q[k] != '"' && k < sizeof t_phase[0] - 1) { t_phase[t_nphase][k] = q[k]; k++; } t_phase[t_nphase][k] = 0; t_nphase++; }
+        else if (q) t_nphase = MAX_PHASES + 1;          /* overflow: reported as such */
+    }
     if (!t_out) return;
     int bit = event[0] == 'M' ? 1 : event[0] == 'C' ? 2 : event[0] == 'P' ? 4 : event[0] == 'R' ? 8 : 0;
     if (bit && !(ev_mask & bit)) return;
@@ -187,6 +204,13 @@ void slu_vhook_mem(const char *event, const GlobalLU_t *Glu, const char *fmt, ..
 {
     if (slu_v_yield) slu_v_yield(event + 2);
     if (event[0] == 'M') t_in_expand = strcmp(event, "M:ExpandBegin") == 0;
+    if (event[0] == 'P') {
+        /* phase events of the drivers (spec/SluDriver.tla): collected per call, the harness reports them with the return event */
+        char body[256]; va_list ap; va_start(ap, fmt); vsnprintf(body, sizeof body, fmt ? fmt : "", ap); va_end(ap);
+        const char *q = strstr(body, "\"name\":\"");
+        if (q && t_nphase < MAX_PHASES) { q += 8; size_t k = 0; while (q[k] && q[k] != '"' && k < sizeof t_phase[0] - 1) { t_phase[t_nphase][k] = q[k]; k++; } t_phase[t_nphase][k] = 0; t_nphase++; }
+        else if (q) t_nphase = MAX_PHASES + 1;          /* overflow: reported as such */
+    }
     if (!t_out) return;
     int bit = event[0] == 'M' ? 1 : event[0] == 'C' ? 2 : event[0] == 'P' ? 4 : event[0] == 'R' ? 8 : 0;
     if (bit && !(ev_mask & bit)) return;
